@@ -89,7 +89,9 @@ def table_defs():
     T.append(("Rect::height", r"^%srect::Rect::<T>::height$" % GT, [R], rs, env2, float, lambda w: w[1]["y"] - w[0]["y"]))
     T.append(("Rect::min", r"^%srect::Rect::<T>::min$" % GT, [R], rs, env2, xy, lambda w: (w[0]["x"], w[0]["y"])))
     T.append(("Rect::max", r"^%srect::Rect::<T>::max$" % GT, [R], rs, env2, xy, lambda w: (w[1]["x"], w[1]["y"])))
-    T.append(("Rect::center", r"^%srect::Rect::<T>::center$" % GT, [R], rs, env2, xy, lambda w: ((w[0]["x"] + w[1]["x"]) / 2.0, (w[0]["y"] + w[1]["y"]) / 2.0)))
+    # also rectangles whose extent exceeds the largest float (max - min overflows, max + min does not): the centre is still the midpoint
+    big = [({"x": -1e308, "y": -1e308}, {"x": 1e308, "y": 1e308}), ({"x": -1.7e308, "y": 0.0}, {"x": 1.7e308, "y": 4.0})]
+    T.append(("Rect::center", r"^%srect::Rect::<T>::center$" % GT, [R], rs + big, env2, xy, lambda w: ((w[0]["x"] + w[1]["x"]) / 2.0, (w[0]["y"] + w[1]["y"]) / 2.0)))
     T.append(("Rect::new", r"^%srect::Rect::<T>::new$" % GT, [C(0), C(1)], two, env2, lambda v: (xy(v["min"]), xy(v["max"])),
               lambda w: ((min(w[0]["x"], w[1]["x"]), min(w[0]["y"], w[1]["y"])), (max(w[0]["x"], w[1]["x"]), max(w[0]["y"], w[1]["y"])))))
     P = ("&", point(C(0)))
